@@ -19,6 +19,7 @@ from pest.grammar.rule import COMPOUND
 from pest.grammar.rule import SILENT
 from pest.grammar.rule import SILENT_ATOMIC
 from pest.grammar.rule import BuiltInRule
+from pest.grammar.rule import SkipRule
 
 from .expression import Expression
 from .optimizers.inliners import inline_builtin
@@ -140,6 +141,10 @@ class Optimizer:
         """Combine WHITESPACE and COMMENT into a single SKIP rule."""
         # NOTE: COMMENT and WHITESPACE are hard coded to always be atomic.
 
+        if "SKIP" in rules:
+            # The grammar defines its own rule called SKIP.
+            return
+
         comment = rules.get("COMMENT")
         whitespace = rules.get("WHITESPACE")
 
@@ -148,7 +153,9 @@ class Optimizer:
             return
 
         if comment and comment.modifier & SILENT:
-            rules["SKIP"] = Rule("SKIP", Repeat(comment.expression), SILENT_ATOMIC)
+            rules["SKIP"] = SkipRule(
+                "SKIP", Repeat(comment.expression), SILENT_ATOMIC
+            )
 
         elif (
             whitespace
@@ -157,7 +164,7 @@ class Optimizer:
         ):
             expr = squash(whitespace.expression.expressions, OptimizedChoiceRepeat())
             if expr:
-                rules["SKIP"] = Rule("SKIP", expr, SILENT_ATOMIC)
+                rules["SKIP"] = SkipRule("SKIP", expr, SILENT_ATOMIC)
 
     def _run_once(
         self,
